@@ -132,8 +132,14 @@ func (d *driver) nowSec() int64 {
 	return d.now
 }
 func (d *driver) unix(rel int64) int64 { return baseTime.Unix() + rel }
+// relSec is the floor of t in whole seconds on the virtual time axis.
 func (d *driver) relSec(t time.Time) int64 {
-	return int64(t.Sub(baseTime).Truncate(time.Second) / time.Second)
+	dd := t.Sub(baseTime)
+	s := int64(dd / time.Second)
+	if dd%time.Second < 0 {
+		s--
+	}
+	return s
 }
 func (d *driver) relNs(t time.Time) int64 {
 	if t.IsZero() {
@@ -256,7 +262,7 @@ func (d *driver) teardown() {
 
 func (d *driver) authzEndpoint(f *FilterSpec) string {
 	u := d.idp.base(f.IdpID) + "/authorize"
-	if f.AuthzQuery != "" {
+	if f.AuthzQuery != "" && !f.Discovery {
 		u += "?" + f.AuthzQuery
 	}
 	return u
@@ -755,7 +761,7 @@ func (d *driver) finishCheck(c *checkRun) {
 	e := d.env
 	f := e.fspec[c.f]
 	ev := map[string]any{"ev": "resp", "n": c.n, "c": c.id, "f": c.f, "b": c.b, "expect": c.expect}
-	none := map[string]any{"ex": false}
+	none := map[string]any{"ex": false, "kind": "none", "raw": "", "params": map[string]any{}, "sym": "none", "parseOK": true, "fragment": false}
 	ev["loc"], ev["setCookie"], ev["upstream"], ev["okExtra"], ev["leaks"] = none, []any{}, []any{}, []any{}, []any{}
 	ev["code"], ev["http"], ev["noCache"], ev["body"], ev["wellFormed"] = -1, 0, false, "none", true
 	switch {
@@ -916,7 +922,7 @@ func (d *driver) describeCookie(f *FilterSpec, v string, br *browser) map[string
 		name, value = strings.TrimSpace(nv[:i]), strings.TrimSpace(nv[i+1:])
 	}
 	attrs := []any{}
-	deleted := false
+	deleted, hasDomain := false, false
 	for _, a := range parts[1:] {
 		a = strings.TrimSpace(a)
 		if a == "" {
@@ -926,6 +932,9 @@ func (d *driver) describeCookie(f *FilterSpec, v string, br *browser) map[string
 		la := strings.ToLower(a)
 		if la == "max-age=0" || strings.HasPrefix(la, "max-age=-") {
 			deleted = true
+		}
+		if strings.HasPrefix(la, "domain") {
+			hasDomain = true
 		}
 	}
 	nameSym := "other"
@@ -940,7 +949,8 @@ func (d *driver) describeCookie(f *FilterSpec, v string, br *browser) map[string
 	if name == cookieName(f) {
 		nameSym = "own:" + f.Name
 	}
-	out := map[string]any{"name": nameSym, "nameRaw": name, "attrs": attrs, "deleted": deleted, "sid": "none", "_value": ""}
+	out := map[string]any{"name": nameSym, "nameRaw": name, "attrs": attrs, "deleted": deleted, "sid": "none", "_value": "", "fresh": false,
+		"hostPrefix": strings.HasPrefix(name, "__Host-"), "hasDomain": hasDomain}
 	if deleted {
 		delete(br.jar, name)
 		return out
@@ -966,7 +976,7 @@ func contains(l []string, s string) bool {
 
 // describeLocation parses a Location with net/url, independently of how the service assembled it.
 func (d *driver) describeLocation(f *FilterSpec, v string) map[string]any {
-	out := map[string]any{"ex": true, "kind": "other", "raw": "", "params": map[string]any{}, "sym": "none", "parseOK": true}
+	out := map[string]any{"ex": true, "kind": "other", "raw": "", "params": map[string]any{}, "sym": "none", "parseOK": true, "fragment": false}
 	if s := d.symURL(v); !strings.HasPrefix(s, "rawurl:") {
 		out["kind"], out["sym"] = "url", s
 		return out
